@@ -206,6 +206,11 @@ func measureCriteria(small bool) []crit {
 		crit{cond("svc", opNE, e2e.Str("a")), "svc.NE(entity)"},
 		crit{cond("zone", opGT, e2e.Str("z1")), "zone.GT(illtyped)"},
 		crit{cond("nosuch", opEQ, e2e.Str("x")), "nosuch.EQ(unknown)"},
+		// enum defaults and absent values
+		crit{cond("lvl", modelv1.Condition_BINARY_OP_UNSPECIFIED, e2e.Int(2)), "lvl.UNSPECIFIED(op-default)"},
+		crit{logic(modelv1.LogicalExpression_LOGICAL_OP_UNSPECIFIED, cond("lvl", opGE, e2e.Int(2)), cond("zone", opEQ, e2e.Str("z2"))), "UNSPECIFIED(lvl.GE,zone.EQ)(logical-op-default)"},
+		crit{cond("zone", opEQ, e2e.Null()), "zone.EQ(null-value)"},
+		crit{cond("lvl", opEQ, &modelv1.TagValue{}), "lvl.EQ(no-value)"},
 	)
 	if small {
 		return pick(out, "none", "lvl.GT", "svc.EQ", "zone.EQ", "AND(lvl.GE,zone.EQ)", "OR(svc.EQ,lvl.EQ)", "lvl.EQ(nomatch)")
@@ -315,6 +320,9 @@ func orders(indexRule string) []order {
 		{&modelv1.QueryOrder{Sort: modelv1.Sort_SORT_DESC}, "time.desc"},
 		{&modelv1.QueryOrder{IndexRuleName: indexRule, Sort: modelv1.Sort_SORT_ASC}, indexRule + ".asc"},
 		{&modelv1.QueryOrder{IndexRuleName: indexRule, Sort: modelv1.Sort_SORT_DESC}, indexRule + ".desc"},
+		// sort left at the proto default
+		{&modelv1.QueryOrder{}, "time.unspecified"},
+		{&modelv1.QueryOrder{IndexRuleName: indexRule}, indexRule + ".unspecified"},
 	}
 }
 
@@ -415,7 +423,9 @@ func measureCases(thorough bool) []reqCase {
 			aggs = append(aggs, aggT{f, fn})
 		}
 	}
-	tops := []modelv1.Sort{modelv1.Sort_SORT_UNSPECIFIED, modelv1.Sort_SORT_ASC, modelv1.Sort_SORT_DESC}
+	// top: none, 2 asc, 2 desc, 2 with field_value_sort left at the proto default (SORT_UNSPECIFIED = highest N on the row path)
+	aggs = append(aggs, aggT{"vi", modelv1.AggregationFunction_AGGREGATION_FUNCTION_UNSPECIFIED}) // enum default: rejected by both paths
+	tops := []int32{-1, int32(modelv1.Sort_SORT_ASC), int32(modelv1.Sort_SORT_DESC), int32(modelv1.Sort_SORT_UNSPECIFIED)}
 	acrits := []crit{small[0], small[1], small[6]} // none, lvl.GT, nomatch (empty groups)
 	wins := []window{{0, 0}, {3, 2}}
 	// projection style 0: exactly the group-by tag and the value field; 2: additional columns. (A projection that omits
@@ -472,7 +482,7 @@ func measureCases(thorough bool) []reqCase {
 									r.Agg = &measurev1.QueryRequest_Aggregation{Function: ag.fn, FieldName: ag.field}
 								}
 								if ti > 0 {
-									r.Top = &measurev1.QueryRequest_Top{Number: 2, FieldName: vf, FieldValueSort: tp}
+									r.Top = &measurev1.QueryRequest_Top{Number: 2, FieldName: vf, FieldValueSort: modelv1.Sort(tp)}
 								}
 								shape := fmt.Sprintf("agg/gb=%s/fn=%s(%s)/top=%s/%s/order=%s/window=%s/proj=%d", orDash(gb), aggName(ag.fn), orDash(ag.field), topName(tp), critClass(c.label), o.label, winClass(w), st)
 								out = append(out, reqCase{Engine: 'M', Msg: r, Ordered: ti > 0 || o.o != nil, Shape: shape})
@@ -581,7 +591,7 @@ func measureCases(thorough bool) []reqCase {
 					}
 					r.Agg = &measurev1.QueryRequest_Aggregation{Function: ag.fn, FieldName: ag.field}
 					if ti > 0 {
-						r.Top = &measurev1.QueryRequest_Top{Number: 2, FieldName: ag.field, FieldValueSort: tp}
+						r.Top = &measurev1.QueryRequest_Top{Number: 2, FieldName: ag.field, FieldValueSort: modelv1.Sort(tp)}
 					}
 					out = append(out, reqCase{Engine: 'M', Msg: r, Ordered: ti > 0,
 						Shape: fmt.Sprintf("multigroup/agg/gb=%s/fn=%s(%s)/top=%s", orDash(gb), aggName(ag.fn), ag.field, topName(tp))})
@@ -613,14 +623,16 @@ func aggName(f modelv1.AggregationFunction) string {
 	return strings.TrimPrefix(f.String(), "AGGREGATION_FUNCTION_")
 }
 
-func topName(s modelv1.Sort) string {
-	switch s {
-	case modelv1.Sort_SORT_ASC:
+func topName(s int32) string {
+	switch {
+	case s < 0:
+		return "-"
+	case modelv1.Sort(s) == modelv1.Sort_SORT_ASC:
 		return "2asc"
-	case modelv1.Sort_SORT_DESC:
+	case modelv1.Sort(s) == modelv1.Sort_SORT_DESC:
 		return "2desc"
 	}
-	return "-"
+	return "2unspecified"
 }
 
 // ---------------------------------------------------------------------------------------------------------------
@@ -690,6 +702,9 @@ func streamCriteria(small bool) []crit {
 	out = append(out, and, or, empty,
 		crit{logic(lAND, cond("dur", opGE, e2e.Int(20)), cond("tid", opEQ, e2e.Str("t1"))), "AND(dur.GE,tid.EQ)"},
 		crit{cond("nosuch", opEQ, e2e.Str("x")), "nosuch.EQ(unknown)"},
+		crit{cond("dur", modelv1.Condition_BINARY_OP_UNSPECIFIED, e2e.Int(30)), "dur.UNSPECIFIED(op-default)"},
+		crit{logic(modelv1.LogicalExpression_LOGICAL_OP_UNSPECIFIED, cond("dur", opGE, e2e.Int(20)), cond("tid", opEQ, e2e.Str("t1"))), "UNSPECIFIED(dur.GE,tid.EQ)(logical-op-default)"},
+		crit{cond("region", opEQ, e2e.Null()), "region.EQ(null-value)"},
 	)
 	if small {
 		return pick(out, "none", "dur.GT", "svc.EQ", "code.GE", "AND(code.GE,region.EQ)", "dur.EQ(nomatch)")
@@ -865,7 +880,7 @@ func traceCases(thorough bool) []reqCase {
 		oprojs = append(oprojs, []string{"svc", "state", "ts"})
 	}
 	for _, idx := range []string{"dur", "ts"} {
-		for _, srt := range []modelv1.Sort{modelv1.Sort_SORT_ASC, modelv1.Sort_SORT_DESC} {
+		for _, srt := range []modelv1.Sort{modelv1.Sort_SORT_ASC, modelv1.Sort_SORT_DESC, modelv1.Sort_SORT_UNSPECIFIED} {
 			o := order{&modelv1.QueryOrder{IndexRuleName: idx, Sort: srt}, idx + "." + strings.ToLower(strings.TrimPrefix(srt.String(), "SORT_"))}
 			for _, p := range oprojs {
 				for _, c := range filt {
